@@ -306,6 +306,10 @@ class QueryGen:
             self.sites += 1
         else:
             it, it_x = self.typed_call(cls.items, self.info[level]["items"], A(N(v), "items"), A(N(v), self.info[level]["items_out"]), v, True)
+        if r.random() < 0.15:
+            # a conditional with the same collection type on both branches is a typed receiver like any other
+            it = ast.IfExp(test=gen.cmp(ast.Gt, C(1), C(0)), body=it, orelse=gen.clone(it))
+            it_x = ast.IfExp(test=gen.cmp(ast.Gt, C(1), C(0)), body=it_x, orelse=gen.clone(it_x))
         if k == "count":
             return call(A(it, "Count"), []), call(A(it_x, "Count"), [])
         if k == "dictnest":
